@@ -21,6 +21,35 @@ claim("C13",
       "semantics; per-character case-fold hypotheses (checked on the generator alphabet).",
       "machine-checked proof (Coq) over a hand-written model + differential correspondence check", "DESIGN.md §6 C13")
 
+ENGINE_NOTE = ("Trusted: Coq kernel; extraction (ExtrOcamlBasic) + OCaml driver; the observation harness (in-process wrappers, virtual clock, "
+               "serial ids); MockProvider as the file tree (tied to TreeModel.apply_op after every user operation). The engine's own algorithm "
+               "is NOT modelled: theorems are about the acceptor and the tree specification for all traces; the tie to the code is that every "
+               "explored real run must be accepted. Unexplored runs are not covered. Seeded exploration is confined to the claimed-clean "
+               "domain of DESIGN §4.3 (fresh paths between drains, bracketed folder operations, id-stable acting sides, unfiltered events).")
+ENGINE_TECH = "machine-checked proof (Coq) of a trace acceptor and tree specification + trace acceptance of real engine runs"
+
+claim("C01",
+      "Coq proof (all traces): a trace accepted by Monitor.accept has equal views modulo '.conflicted' names at every quiet report and "
+      "never more than step_bound engine steps after the last user operation without a quiet report. Tie: every explored run of the real "
+      "engine (one-sided, disjoint two-sided and same-file conflict histories, random interleavings of user ops, per-side intake and sync "
+      "steps, all unfiltered flavours with id-stable acting sides, permuted set orders) is recorded and must be accepted by the extracted acceptor.",
+      ENGINE_NOTE, ENGINE_TECH, "DESIGN.md §3.2, §6 C01")
+claim("C02",
+      "Coq proof (all traces): in an accepted trace every content version written by a user and not since overwritten/deleted by a user "
+      "(cov, characterised by C02_covered_meaning) is the content of a live file after every engine action and at every quiet report. Tie: "
+      "edit/edit and create/create conflict histories plus disjoint histories on the real engine, unique content tokens, judged by the extracted acceptor.",
+      ENGINE_NOTE, ENGINE_TECH, "DESIGN.md §3.2, §6 C02")
+claim("C03",
+      "Coq proof (all traces): in an accepted one-sided trace both views at every quiet report equal the synchronised base tree with the "
+      "user's operations applied (TreeModel.apply_ops), no engine action changes the origin side's view, no provider write follows a quiet "
+      "report, and no '.conflicted' name exists. Tie: one-sided histories in both directions on the real engine judged by the extracted acceptor.",
+      ENGINE_NOTE, ENGINE_TECH, "DESIGN.md §3.2, §6 C03")
+claim("C04",
+      "Coq proof (all traces): in an accepted trace both views at every quiet report equal the base tree with BOTH sides' operations applied; "
+      "TreeProofs shows this tree does not depend on the interleaving for disjoint operation lists (commutation of independent operations). "
+      "Tie: disjoint two-sided histories on the real engine judged by the extracted acceptor.",
+      ENGINE_NOTE, ENGINE_TECH, "DESIGN.md §3.2, §6 C04")
+
 ALL = ["C%02d" % i for i in range(1, 21)]
 
 
